@@ -156,6 +156,19 @@ def check_range_laws(rec, g, k, of):
                 continue
             if (h.start.index, h.end.index) != hx or (h2.start.index, h2.end.index) != hx or a not in h or b not in h:
                 rec.violation("C15|range|hull", case, f"hull is {h.start.index}-{h.end.index}, reference {hx[0]}-{hx[1]} (contains both, commutative)")
+    # the library's own placeholder range (the position of generated code) is a range like any other: 0-0
+    from pyoak.origin import EMPTY_CODE_RANGE
+
+    if k == 0:
+        for y in rs:
+            rec.count("transitions"); rec.count("traces"); rec.count("evaluations")
+            b = R(*y)
+            case = {"a": "EMPTY_CODE_RANGE", "b": list(y)}
+            for h in (EMPTY_CODE_RANGE + b, b + EMPTY_CODE_RANGE):
+                if (h.start.index, h.end.index) != (0, y[1]) or b not in h or EMPTY_CODE_RANGE not in h:
+                    rec.violation("C15|range|hull", case, f"hull with the placeholder range 0-0 is {h.start.index}-{h.end.index}, reference 0-{y[1]} (contains both)")
+            if EMPTY_CODE_RANGE.overlaps(b) is not (y[0] == 0) or (EMPTY_CODE_RANGE in b) is not (y[0] == 0):
+                rec.violation("C15|range|overlaps", case, "overlap / containment with the placeholder range 0-0 differs from the reference")
     for x, y, z in itertools.product(rs, repeat=3):
         idx += 1
         if idx % of != k:
